@@ -74,7 +74,43 @@ func xidClass(x string) string {
 	return "plain"
 }
 
+// c07IntegOverlap: overlapping requests on a server whose base context is a shared seata context.
+func c07IntegOverlap(r *vc.Run, ch *vc.Child) {
+	n := 6
+	if r.Tier == "thorough" {
+		n = 40
+	}
+	for _, kind := range []string{"gin", "grpc"} {
+		for i := 0; i < n; i++ {
+			x1, x2 := fmt.Sprintf("10.7.7.1:8091:%d", 9100+2*i), fmt.Sprintf("10.7.7.2:8091:%d", 9101+2*i)
+			var out map[string]string
+			if err := ch.Call("integ_overlap", map[string]string{"kind": kind, "xid1": x1, "xid2": x2}, &out); err != nil {
+				r.Inconc("integ_overlap: " + err.Error())
+				r.Case("", nil)
+				continue
+			}
+			shape := "integ-overlap|" + kind
+			feat := map[string]string{"part": "integ-overlap", "kind": kind}
+			r.Case(shape, map[string]interface{}{"kind": kind, "observed": out})
+			viol := func(clause, detail string) {
+				r.Violate(&vc.Violation{Clause: clause, Shape: shape, Features: feat, Detail: detail, Case: map[string]string{"kind": kind, "xid1": x1, "xid2": x2}, History: out})
+			}
+			switch {
+			case out["panic"] != "":
+				viol("integ-panic", "integration panicked: "+clipStr(out["panic"], 300))
+			case out["first_entry"] != x1 || out["first_exit"] != x1:
+				viol("integ-xid-changed", fmt.Sprintf("the handler of the first request saw xid %q on entry and %q on exit, its request carried %q (a second request with %q was served meanwhile)", out["first_entry"], out["first_exit"], x1, x2))
+			case out["second_entry"] != x2 || out["second_exit"] != x2:
+				viol("integ-xid-changed", fmt.Sprintf("the handler of the second request saw xid %q / %q, its request carried %q", out["second_entry"], out["second_exit"], x2))
+			case out["base_after"] != "":
+				viol("outer-context-damaged", fmt.Sprintf("the server's shared base context is bound to xid %q after the requests", out["base_after"]))
+			}
+		}
+	}
+}
+
 func runC07Integ(r *vc.Run, w *world.World, ch *vc.Child) {
+	c07IntegOverlap(r, ch)
 	type job struct {
 		a   c07IntegArg
 		res c07IntegRes
